@@ -67,7 +67,7 @@ def run(ck):
         mod, cfg, expect = job
         if expect is None:
             return ck.tlc_model(mod, cfg, timeout=2400, workers=6 if mod == "FSTreeMC" else 3)
-        r = ck.tlc(mod, cfg, timeout=600, workers=2, count=False)
+        r = ck.tlc(mod, cfg, timeout=2400, workers=2, count=False)
         ck.log("TLC %s/%s (deviation switch on): %s" % (mod, cfg, r.summary()))
         if r.kind != "invariant" or r.name != expect:
             raise vkit.Infra("as-found model %s/%s did not produce the expected deviation %s (%s %s)\n%s"
